@@ -609,6 +609,9 @@ class Executor:
             return OptV(z3.BoolVal(False), v.t)
         raise OutOfSubset("expected Optional[int]")
 
+    def ev_ListComp(self, node, st, spec):
+        return self.listcomp(node, st, spec)
+
     def ev_Dict(self, node, st, spec):
         if node.keys:
             raise OutOfSubset("non-empty dict literal")
@@ -1368,7 +1371,7 @@ class Executor:
         return results
 
     # ---- list comprehensions ---------------------------------------------------------------------------------
-    def listcomp(self, node: ast.ListComp, st):
+    def listcomp(self, node: ast.ListComp, st, spec=False):
         if len(node.generators) != 1 or node.generators[0].is_async:
             raise OutOfSubset("nested comprehension")
         g = node.generators[0]
@@ -1382,7 +1385,7 @@ class Executor:
         nvc = len(self.vcs)
         if isinstance(node.elt, ast.ListComp):
             raise OutOfSubset("nested comprehension")
-        elt = self.ev(node.elt, sub)
+        elt = self.ev(node.elt, sub, spec)
         # facts introduced while evaluating the element (slices, div/mod) depend on j: quantify them
         extra = sub.pc[len(st.pc) + 1:]
         ek = elem_kind_of(elt)
@@ -1518,7 +1521,7 @@ def _collect_apps(expr, decl, acc, bound_depth=0):
             _collect_apps(ch, decl, acc)
 
 
-def spec_axioms(formulas, depth=2):
+def spec_axioms(formulas, depth=2, ranges=False):
     """Ground instances of the defining equations of Sum and pow2 for the terms occurring in `formulas`.
     Sum(T, n) = 0 for n <= 0, Sum(T, n) = Sum(T, n-1) + T[n-1] for n > 0;  congruence for pairs of Sum terms;
     pow2(t) = 1 for t <= 0, pow2(t) = 2*pow2(t-1) for t > 0."""
@@ -1549,6 +1552,25 @@ def spec_axioms(formulas, depth=2):
             new.append(ax)
         frontier = new
     apps = list(seen_s.values())
+    # range lemmas for two sums over the SAME summand with different bounds (theorems of the recursive definition, induction on the
+    # distance; proved on every run by check_sum_lemmas): monotone for non-negative summands, at most (b - a) for summands <= 1, equal
+    # for zero summands.  Also every sum against the empty sum Sum(T, 0) == 0.
+    by_T = {}
+    for a in (apps if ranges else []):          # opt-in per contract (lemmas=["sum_ranges"]): the instances are quantified and slow unrelated proofs down
+        by_T.setdefault(a.arg(0).get_id(), []).append(a)
+    for group in by_T.values():
+        T = group[0].arg(0)
+        zero = SumF(T, z3.IntVal(0))
+        out.append(zero == 0)
+        for a, b in itertools.permutations(group + [zero], 2):
+            lo, hi = a.arg(1), b.arg(1)
+            if lo.eq(hi):
+                continue
+            i = fresh("ri", z3.IntSort())
+            rng = z3.And(lo <= i, i < hi)
+            out.append(z3.Implies(z3.And(lo <= hi, z3.ForAll([i], z3.Implies(rng, z3.Select(T, i) >= 0))), a <= b))
+            out.append(z3.Implies(z3.And(lo <= hi, z3.ForAll([i], z3.Implies(rng, z3.Select(T, i) <= 1))), b - a <= hi - lo))
+            out.append(z3.Implies(z3.And(lo <= hi, z3.ForAll([i], z3.Implies(rng, z3.Select(T, i) == 0))), a == b))
     for a, b in itertools.combinations(apps, 2):
         if a.arg(0).eq(b.arg(0)):
             continue
@@ -1570,7 +1592,18 @@ def check_sum_lemmas(ms=10_000):
     base = prove([n <= 0, defs(T1, n), defs(T2, n)], SumF(T1, n) == SumF(T2, n), ms)
     step = prove([n > 0, defs(T1, n), defs(T2, n), z3.Implies(agree(n - 1), SumF(T1, n - 1) == SumF(T2, n - 1)), agree(n)],
                  SumF(T1, n) == SumF(T2, n), ms)
-    return [("lemma.sum_congruence.base", base), ("lemma.sum_congruence.step", step)]
+    # range lemmas, induction on hi (lo fixed): P(hi) := lo <= hi /\ (forall i in [lo,hi). cond(T[i])) -> rel(Sum(T,lo), Sum(T,hi))
+    lo, hi = z3.Ints("lo hi")
+    out = [("lemma.sum_congruence.base", base), ("lemma.sum_congruence.step", step)]
+    for nm, cond, rel in (("monotone", lambda v: v >= 0, lambda sl, sh, l, h: sl <= sh),
+                          ("count_bound", lambda v: v <= 1, lambda sl, sh, l, h: sh - sl <= h - l),
+                          ("zero_range", lambda v: v == 0, lambda sl, sh, l, h: sl == sh)):
+        allc = lambda h: z3.ForAll([i], z3.Implies(z3.And(lo <= i, i < h), cond(T1[i])))
+        b_ = prove([hi == lo], rel(SumF(T1, lo), SumF(T1, hi), lo, hi), ms)
+        s_ = prove([hi > lo, defs(T1, hi), defs(T1, hi - 1), defs(T1, lo), z3.Implies(allc(hi - 1), rel(SumF(T1, lo), SumF(T1, hi - 1), lo, hi - 1)), allc(hi)],
+                   rel(SumF(T1, lo), SumF(T1, hi), lo, hi), ms)
+        out += [(f"lemma.sum_{nm}.base", b_), (f"lemma.sum_{nm}.step", s_)]
+    return out
 
 
 # --------------------------------------------------------------------------- public API
@@ -1625,7 +1658,8 @@ def verify(contract: dict, all_contracts: dict | None = None, ms: int = 10_000, 
             vcs.append(g)
     for vc in vcs:
         hyps = vc.hyps
-        ax = spec_axioms(hyps + [vc.goal])
+        rg = "sum_ranges" in contract.get("lemmas", ())
+        ax = spec_axioms(hyps + [vc.goal], ranges=rg)
         if vc.kind == "reach":
             verdict, m, dt, be = prove(hyps + ax, vc.goal, min(ms, 2000))
         else:
@@ -1633,7 +1667,7 @@ def verify(contract: dict, all_contracts: dict | None = None, ms: int = 10_000, 
             lean = [h for h in hyps if h.get_id() not in ex.hint_ids]
             verdict, m, dt, be = ("undecided", None, 0.0, "z3")
             if len(lean) != len(hyps):
-                verdict, m, dt, be = prove(lean + spec_axioms(lean + [vc.goal]), vc.goal, min(ms, 1500), use_cvc5=False)
+                verdict, m, dt, be = prove(lean + spec_axioms(lean + [vc.goal], ranges=rg), vc.goal, min(ms, 1500), use_cvc5=False)
             # portfolio: the nonlinear / quantified queries are seed-sensitive in z3; three short attempts then cvc5
             for k, sd in enumerate((7, 1, 3)):
                 if verdict in ("proved", "refuted"):
